@@ -161,3 +161,21 @@ package ice
 //@   props C16
 //@   requires in-range: 0 <= start && start <= len(raw)
 //@   ensures a-port-fits-sixteen-bits: result2 == nil ==> result0 <= 65535 && start <= result1 && result1 <= len(raw)
+
+// DTLS-in-STUN-ACK: up to four 32-bit values, big endian, four bytes each; more values or a value length
+// that is not a multiple of four (or exceeds sixteen bytes) is a wrong size.
+//@ func (DtlsInStunAckAttribute).AddTo
+//@   props C16
+//@   loop 1 invariant encoded-so-far: len(v) == 4 * len(a) && rangeindex + 1 <= len(a) && forall k int :: 0 <= k && k <= rangeindex ==> 16777216*elems(v)[v.off + 4*k] + 65536*elems(v)[v.off + 4*k + 1] + 256*elems(v)[v.off + 4*k + 2] + elems(v)[v.off + 4*k + 3] == a[k]
+//@   ensures more-than-four-values-is-refused: len(a) > 4 ==> result != nil && m.gHas == old(m.gHas) && m.gVid == old(m.gVid)
+//@   ensures up-to-four-values-are-added: len(a) <= 4 ==> result == nil && attrHas(m, stun.AttrDtlsInStunAck)
+//@   ensures encodes-each-value-big-endian: len(a) <= 4 && !old(attrHas(m, stun.AttrDtlsInStunAck)) ==> attrLen(m, stun.AttrDtlsInStunAck) == 4 * len(a) && forall k int :: 0 <= k && k < len(a) ==> attrBE32(m, stun.AttrDtlsInStunAck, 4*k) == a[k]
+
+//@ func (*DtlsInStunAckAttribute).GetFrom
+//@   props C16
+//@   modifies *a, fam:E_uint8, fam:E_uint32
+//@   loop 1 invariant decoded-so-far: 4 * len(u) == len(v) && rangeindex + 1 <= len(u) && forall k int :: 0 <= k && k <= rangeindex ==> u[k] == attrBE32(m, stun.AttrDtlsInStunAck, 4*k)
+//@   ensures missing: !attrHas(m, stun.AttrDtlsInStunAck) ==> result != nil
+//@   ensures wrong-size-rejected: attrHas(m, stun.AttrDtlsInStunAck) && (attrLen(m, stun.AttrDtlsInStunAck) > 16 || attrLen(m, stun.AttrDtlsInStunAck) % 4 != 0) ==> result != nil
+//@   ensures decodes-each-value: attrHas(m, stun.AttrDtlsInStunAck) && attrLen(m, stun.AttrDtlsInStunAck) <= 16 && attrLen(m, stun.AttrDtlsInStunAck) % 4 == 0 ==> result == nil && 4 * len(*a) == attrLen(m, stun.AttrDtlsInStunAck) && forall k int :: 0 <= k && k < len(*a) ==> (*a)[k] == attrBE32(m, stun.AttrDtlsInStunAck, 4*k)
+//@   ensures error-keeps-value: result != nil ==> *a == old(*a)
